@@ -171,6 +171,7 @@ func C12() int {
 		}
 		c.Count("logs", 1)
 	})
+	reportBatchAnomalies(c)
 	c.Set("namespace_position_cells", cells)
 	c.Set("race_reports", s.RaceReports())
 	if c.Counter("logs") < 300 || c.Counter("namespace_positions_checked") < 10000 {
